@@ -210,11 +210,16 @@ ENV_OPAQUE_NOAST = """
 """
 
 
-def add_env_full(u, real_typename=False):
+def add_env_full(u, real_typename=False, typehint_stub=False):
     """The evaluator's state types verbatim: BlockState, ExpressionState, Bindings (eval.rs),
     StackFrame, Stack, Env (env.rs), with the AST (add_ast_types) and opaque stand-ins for
     every field type these functions do not look into."""
-    u.raw(ENV_OPAQUE_NOAST, kind="prelude")
+    if typehint_stub:
+        # TypeHint reduced to the one field the step loop reads (`position`)
+        u.raw(ENV_OPAQUE_NOAST.replace("#[verifier::external_body] pub struct TypeHint { _o: u8 }",
+                                       "#[verifier::external_body] pub struct TypeHintRest { _o: u8 }\npub struct TypeHint { pub position: Position, pub rest: TypeHintRest }"), kind="prelude")
+    else:
+        u.raw(ENV_OPAQUE_NOAST, kind="prelude")
     if real_typename:
         u.raw(ENV_STRUCT_OPAQUE.replace("#[verifier::external_body] pub struct TypeName { _o: u8 }\n", ""), kind="prelude")
         u.add_type("src/parser/ast.rs", "TypeName")
@@ -249,28 +254,29 @@ def add_env_accessors(u, props, props_safety=None):
         requires=[("nonempty", "old(self).stack.0@.len() >= 1")],
         ensures=[("is_top", "*r == old(self).stack.0@.last()"),
                  ("frame", "final(self).stack.0@ == old(self).stack.0@.drop_last().push(*final(r))"),
-                 ("rest", "final(self).ticks == old(self).ticks && final(self).tick_limit == old(self).tick_limit && final(self).stack_limit == old(self).stack_limit && final(self).enforce_sandbox == old(self).enforce_sandbox")],
+                 ("rest", "*final(self) == (Env { stack: final(self).stack, ..*old(self) })")],
         props=props_safety))
     rest = "final(self).stack.0@.len() == old(self).stack.0@.len() && final(self).stack.0@.drop_last() == old(self).stack.0@.drop_last()"
+    ENVREST = "*final(self) == (Env { stack: final(self).stack, ..*old(self) })"
     u.add_fn(ENV, "push_binding_block", impl="Env", contract=Contract(
         requires=[("nonempty", "old(self).stack.0@.len() >= 1")],
         ensures=[("one_more", "top(*final(self)).bindings.block_bindings@.len() == top(*old(self)).bindings.block_bindings@.len() + 1"),
-                 ("same_pending", "top(*final(self)).exprs_to_eval == top(*old(self)).exprs_to_eval && top(*final(self)).evalled_values == top(*old(self)).evalled_values && top(*final(self)).bindings_next_block == top(*old(self)).bindings_next_block"),
-                 ("others", rest)], props=props))
+                 ("same_pending", "top(*final(self)) == (StackFrame { bindings: top(*final(self)).bindings, ..top(*old(self)) })"),
+                 ("others", rest), ("env_rest", ENVREST)], props=props))
     u.add_fn(ENV, "push_expr_to_eval", impl="Env", contract=Contract(
         requires=[("nonempty", "old(self).stack.0@.len() >= 1")],
         ensures=[("pushed", "top(*final(self)).exprs_to_eval@ == top(*old(self)).exprs_to_eval@.push((state, expr))"),
-                 ("same_blocks", "top(*final(self)).bindings == top(*old(self)).bindings && top(*final(self)).evalled_values == top(*old(self)).evalled_values"),
-                 ("others", rest)], props=props))
+                 ("same_blocks", "top(*final(self)) == (StackFrame { exprs_to_eval: top(*final(self)).exprs_to_eval, ..top(*old(self)) })"),
+                 ("others", rest), ("env_rest", ENVREST)], props=props))
     u.add_fn(ENV, "push_value", impl="Env", contract=Contract(
         requires=[("nonempty", "old(self).stack.0@.len() >= 1")],
         ensures=[("pushed", "top(*final(self)).evalled_values@ == top(*old(self)).evalled_values@.push(value)"),
-                 ("same_blocks", "top(*final(self)).bindings == top(*old(self)).bindings && top(*final(self)).exprs_to_eval == top(*old(self)).exprs_to_eval"),
-                 ("others", rest)], props=props))
+                 ("same_blocks", "top(*final(self)) == (StackFrame { evalled_values: top(*final(self)).evalled_values, ..top(*old(self)) })"),
+                 ("others", rest), ("env_rest", ENVREST)], props=props))
     u.add_fn(ENV, "pop_value", impl="Env", contract=Contract(
         requires=[("nonempty", "old(self).stack.0@.len() >= 1")],
         ensures=[("popped", "r is Some <==> top(*old(self)).evalled_values@.len() > 0"),
                  ("rest_values", "top(*final(self)).evalled_values@ == (if top(*old(self)).evalled_values@.len() > 0 { top(*old(self)).evalled_values@.drop_last() } else { top(*old(self)).evalled_values@ })"),
-                 ("same_blocks", "top(*final(self)).bindings == top(*old(self)).bindings && top(*final(self)).exprs_to_eval == top(*old(self)).exprs_to_eval"),
-                 ("others", rest)], props=props))
+                 ("same_blocks", "top(*final(self)) == (StackFrame { evalled_values: top(*final(self)).evalled_values, ..top(*old(self)) })"),
+                 ("others", rest), ("env_rest", ENVREST)], props=props))
 
